@@ -418,6 +418,26 @@ pub fn run() -> i32 {
     r.boxes.push(json!({"box": "comma lists in alias lines vs their members one per line (6 deromaniser, 4 romaniser lists)", "comparisons": tl.evals, "equal_ok": tl.rewritten, "equal_err": tl.same}));
     r.guard(tl.rewritten > 100, "alias lists: more than 100 equal Ok outcomes");
     td.merge(tl);
+    // custom mappings are applied before the inbuilt aliases (doc.md): a deromaniser whose string is an inbuilt alias character (ASCII shorthand letters,
+    // americanist characters) must win over the inbuilt reading, and typing that character must then behave exactly as typing the deromaniser's target
+    let inbuilt = ["ł", "ñ", "¢", "ƛ", "λ", "S", "Z", "C", "G", "N", "B", "R", "X", "H", "A", "E", "I", "O", "U", "Y", "g", "?", "!", "φ", "ǝ", "ã", "ẽ", "ĩ", "õ", "ũ", "ỹ", "ɚ", "ɝ", "ꭤ", "ℇ", "ℎ", "ℏ"];
+    let targets = [("w", "w"), ("k", "k"), ("o:[+long]", "oː"), ("t͡s", "t͡s")];
+    let mut ti = Acc::default();
+    for x in inbuilt { for (t_alias, t_typed) in targets { for frame in ["a①a", "①a", "a.①a", "ta①", "①a.②a①", "ˈ①a5.ta"] { for rl in [RULES[0], RULES[1]] {
+        ti.evals += 1;
+        let other = if x == "ñ" { "ł" } else { "ñ" };
+        let with_x = frame.replace('①', x).replace('②', other); let with_t = frame.replace('①', t_typed).replace('②', other);
+        let into = vec![format!("{} > {}", x, t_alias)]; let none: Vec<String> = vec![];
+        let a1 = guarded(budget_for(14, 80) * 2, || asca::run(&[group(rl)], &[with_x.clone()], &into, &none).map_err(|e| format!("{:?}", std::mem::discriminant(&e))));
+        let a2 = guarded(budget_for(14, 80) * 2, || asca::run(&[group(rl)], &[with_t.clone()], &none, &none).map_err(|e| format!("{:?}", std::mem::discriminant(&e))));
+        match (a1, a2) {
+            (Out::Ok(u), Out::Ok(v)) if u == v => { if u.is_ok() { ti.rewritten += 1; } else { ti.same += 1; } }
+            (u, v) => ti.viols.push(Viol { key: format!("inbuilt-deromaniser|{}|{}|{}|{}", x, t_alias, frame, rl.join(" ;; ")), desc: format!("deromaniser `{}` on `{}` (rules {:?}) gives {}, typing `{}` without it gives {}: a custom mapping is applied before the inbuilt alias of the same character", into[0], with_x, rl, match &u { Out::Ok(z) => format!("{:?}", z), o => o.crash_desc().unwrap_or_default() }, with_t, match &v { Out::Ok(z) => format!("{:?}", z), o => o.crash_desc().unwrap_or_default() }), case: json!({"kind": "amer"}) }),
+        }
+    } } } }
+    r.boxes.push(json!({"box": "deromanisers whose string is an inbuilt alias character (37 characters: ASCII shorthands, americanist letters, characters the word reader normalises; x 4 targets x 6 frames x 2 rule lists)", "comparisons": ti.evals, "equal_ok": ti.rewritten, "equal_err": ti.same}));
+    r.guard(ti.rewritten > 1200, "inbuilt-character deromanisers: more than 800 equal Ok outcomes");
+    td.merge(ti);
     // `+` deromanisers: every matrix x every word of W(I3,3) (long and overlong segments, stress, tone) x every segment position
     let wp: Vec<CW> = { let inv: Vec<SegBits> = ["t", "a", "n"].iter().map(|t| seg(t)).collect(); let mut v = vec![];
         for (k, w) in word_space(&inv, 3).into_iter().enumerate() { v.push(w.clone()); let mut x = w.clone(); for (i, sy) in x.iter_mut().enumerate() { sy.stress = ((k + i) % 3) as u8; sy.tone = [0, 5, 51][(k / 2 + i) % 3]; } v.push(x); } v };
